@@ -194,6 +194,11 @@ where
     fn update_A(&mut self, A: &CscMatrix<T>) {
         _update_values(&mut self.ldlsolver, &mut self.KKT, &self.map.A, &A.nzval);
     }
+
+    #[cfg(clarabel_verif)]
+    fn verif_kkt_values(&self) -> Option<(Vec<T>, Vec<usize>, Vec<usize>)> {
+        Some((self.KKT.nzval.clone(), self.map.P.clone(), self.map.A.clone()))
+    }
 }
 
 impl<T> DirectLDLKKTSolver<T>
@@ -434,5 +439,73 @@ fn _fill_signs(signs: &mut [i8], m: usize, n: usize, map: &LDLDataMap) {
         let thisp = thismap.pdim();
         signs[p..(p + thisp)].copy_from_slice(thismap.Dsigns());
         p += thisp;
+    }
+}
+
+// ---------------------------------------------------------
+// verification hooks (compiled only with --cfg clarabel_verif)
+// ---------------------------------------------------------
+#[cfg(clarabel_verif)]
+fn verif_flatten_maps(map: &LDLDataMap) -> Vec<Vec<Vec<usize>>> {
+    map.sparse_maps
+        .iter()
+        .map(|m| match m {
+            SparseExpansionMap::SOCExpansionMap(m) => vec![m.u.clone(), m.v.clone(), m.D.to_vec()],
+            SparseExpansionMap::GenPowExpansionMap(m) => {
+                vec![m.p.clone(), m.q.clone(), m.r.clone(), m.D.to_vec()]
+            }
+        })
+        .collect()
+}
+
+#[cfg(clarabel_verif)]
+pub fn verif_assemble(
+    P: &CscMatrix<f64>,
+    A: &CscMatrix<f64>,
+    cones: &CompositeCone<f64>,
+    triu: bool,
+) -> crate::verif::KktSnapshot {
+    let shape = if triu { MatrixTriangle::Triu } else { MatrixTriangle::Tril };
+    let (KKT, map) = assemble_kkt_matrix(P, A, cones, shape);
+    let (m, n) = (A.m, A.n);
+    let p = map.sparse_maps.pdim();
+    let mut dsigns = vec![1_i8; n + m + p];
+    _fill_signs(&mut dsigns, m, n, &map);
+    crate::verif::KktSnapshot {
+        m,
+        n,
+        p,
+        is_triu: triu,
+        KKT,
+        dsigns,
+        map_P: map.P.clone(),
+        map_A: map.A.clone(),
+        map_Hsblocks: map.Hsblocks.clone(),
+        map_diagP: map.diagP.clone(),
+        map_diag_full: map.diag_full.clone(),
+        sparse_maps: verif_flatten_maps(&map),
+        diagonal_regularizer: 0.0,
+    }
+}
+
+#[cfg(clarabel_verif)]
+impl DirectLDLKKTSolver<f64> {
+    /// copy of the current (unpermuted, unregularised) KKT matrix with its maps
+    pub fn verif_snapshot(&self) -> crate::verif::KktSnapshot {
+        crate::verif::KktSnapshot {
+            m: self.m,
+            n: self.n,
+            p: self.p,
+            is_triu: self.KKT.is_triu(),
+            KKT: self.KKT.clone(),
+            dsigns: self.dsigns.clone(),
+            map_P: self.map.P.clone(),
+            map_A: self.map.A.clone(),
+            map_Hsblocks: self.map.Hsblocks.clone(),
+            map_diagP: self.map.diagP.clone(),
+            map_diag_full: self.map.diag_full.clone(),
+            sparse_maps: verif_flatten_maps(&self.map),
+            diagonal_regularizer: self.diagonal_regularizer,
+        }
     }
 }
